@@ -450,3 +450,290 @@ Proof.
   - intros st (nw & ->). apply Inv_init.
   - intros st a st' HI Hst. eapply step_inv; eassumption.
 Qed.
+
+(** * consequences of the invariant *)
+Lemma NoDup_app_l {A} (a b : list A) : NoDup (a ++ b) -> NoDup a.
+Proof. induction a as [|x a IH]; cbn; intros H; [constructor|]. inversion H; subst. constructor; [rewrite in_app_iff in *; tauto|auto]. Qed.
+Lemma NoDup_app_r {A} (a b : list A) : NoDup (a ++ b) -> NoDup b.
+Proof. induction a as [|x a IH]; cbn; intros H; [exact H|]. inversion H; subst. auto. Qed.
+Lemma NoDup_app_disj {A} (a b : list A) x : NoDup (a ++ b) -> In x a -> ~ In x b.
+Proof.
+  induction a as [|y a IH]; cbn; intros H Hin; [destruct Hin|]. inversion H as [|? ? Hn Hnd]; subst.
+  destruct Hin as [->|Hin]; [rewrite in_app_iff in Hn; tauto|auto].
+Qed.
+
+Lemma exactly_once_nodup l m n : Permutation (l ++ m) (seq 0 n) -> NoDup (l ++ m).
+Proof. intros H. eapply Permutation_NoDup; [apply Permutation_sym; exact H|apply seq_NoDup]. Qed.
+
+(** a thread that owns its stack: the stack exists, is in no free list of any worker, and no
+    other thread owns it *)
+Lemma owned_stack_exclusive st : Inv st ->
+  forall t th, nth_error (ths st) t = Some th -> owns_stack (t_ph th) = true ->
+    t_stack th < nstk st /\
+    ~ In (t_stack th) (map snd (fstk st)) /\
+    (forall t' th', nth_error (ths st) t' = Some th' -> owns_stack (t_ph th') = true ->
+                    t_stack th' = t_stack th -> t' = t).
+Proof.
+  intros (HS & _ & _) t th Ht Ho. pose proof (exactly_once_nodup _ _ _ HS) as ND.
+  assert (Hin : In (t_stack th) (stk_owned st)) by (apply sel_in; exists t, th; auto).
+  split; [|split].
+  - assert (Hs : In (t_stack th) (seq 0 (nstk st)))
+      by (eapply Permutation_in; [exact HS|apply in_or_app; left; exact Hin]).
+    apply in_seq in Hs. lia.
+  - eapply NoDup_app_disj; [exact ND|exact Hin].
+  - intros t' th' Ht' Ho' E. eapply (sel_nodup_inj Ps t_stack (ths st)); [eapply NoDup_app_l; exact ND| | | | |]; eauto.
+Qed.
+
+Lemma owned_desc_exclusive st : Inv st ->
+  forall t th, nth_error (ths st) t = Some th -> owns_desc (t_ph th) = true ->
+    t_desc th < ndesc st /\
+    ~ In (t_desc th) (map snd (fdesc st)) /\
+    (forall t' th', nth_error (ths st) t' = Some th' -> owns_desc (t_ph th') = true ->
+                    t_desc th' = t_desc th -> t' = t).
+Proof.
+  intros (_ & HD & _) t th Ht Ho. pose proof (exactly_once_nodup _ _ _ HD) as ND.
+  assert (Hin : In (t_desc th) (desc_owned st)) by (apply sel_in; exists t, th; auto).
+  split; [|split].
+  - assert (Hs : In (t_desc th) (seq 0 (ndesc st)))
+      by (eapply Permutation_in; [exact HD|apply in_or_app; left; exact Hin]).
+    apply in_seq in Hs. lia.
+  - eapply NoDup_app_disj; [exact ND|exact Hin].
+  - intros t' th' Ht' Ho' E. eapply (sel_nodup_inj Pd t_desc (ths st)); [eapply NoDup_app_l; exact ND| | | | |]; eauto.
+Qed.
+
+(** C12_stack_not_reused_while_in_use, state form *)
+Theorem stack_in_use_exclusive : forall st, reachable init step st ->
+  (* the stack a worker executes on *)
+  (forall w x, on_stack st w = Some x ->
+     exists t th, nth_error (ths st) t = Some th /\ t_stack th = x /\
+       (t_ph th = PRun w \/ t_ph th = PFin w) /\ x < nstk st /\
+       ~ In x (map snd (fstk st)) /\
+       (forall t' th', nth_error (ths st) t' = Some th' -> owns_stack (t_ph th') = true ->
+                       t_stack th' = x -> t' = t)) /\
+  (* the stack holding a saved context, or any other stack not yet released by its callback *)
+  (forall t th, nth_error (ths st) t = Some th -> owns_stack (t_ph th) = true ->
+     t_stack th < nstk st /\ ~ In (t_stack th) (map snd (fstk st)) /\
+     (forall t' th', nth_error (ths st) t' = Some th' -> owns_stack (t_ph th') = true ->
+                     t_stack th' = t_stack th -> t' = t)).
+Proof.
+  intros st Hr. pose proof (ledger_invariant st Hr) as HI. split.
+  - intros w x Hon. unfold on_stack in Hon.
+    destruct (nth_error (wks st) w) as [k|] eqn:Ek; [|discriminate].
+    destruct (w_cur k) as [t|] eqn:Ec; [|discriminate].
+    destruct (nth_error (ths st) t) as [th|] eqn:Et; [|discriminate].
+    injection Hon as <-. destruct HI as (HS & HD & HC).
+    destruct (HC w k t Ek Ec) as (th0 & Et0 & Hph). rewrite Et in Et0. injection Et0 as <-.
+    assert (Ho : owns_stack (t_ph th) = true) by (destruct Hph as [-> | ->]; reflexivity).
+    destruct (owned_stack_exclusive st (conj HS (conj HD HC)) t th Et Ho) as (H1 & H2 & H3).
+    exists t, th. repeat split; auto.
+  - intros t th Et Ho. apply (owned_stack_exclusive st HI t th Et Ho).
+Qed.
+
+(** C12_release_once, state form: no stack and no record is twice in the free lists (of one
+    worker or of different workers) *)
+Theorem free_lists_nodup : forall st, reachable init step st ->
+  NoDup (map snd (fstk st)) /\ NoDup (map snd (fdesc st)).
+Proof.
+  intros st Hr. destruct (ledger_invariant st Hr) as (HS & HD & _). split.
+  - eapply NoDup_app_r. eapply exactly_once_nodup. exact HS.
+  - eapply NoDup_app_r. eapply exactly_once_nodup. exact HD.
+Qed.
+
+(** the record of a thread that has not been reaped is in no free list and belongs to no
+    other unreaped thread *)
+Theorem record_until_reaped : forall st, reachable init step st ->
+  forall t th, nth_error (ths st) t = Some th -> t_ph th <> PGone ->
+    t_desc th < ndesc st /\ ~ In (t_desc th) (map snd (fdesc st)) /\
+    (forall t' th', nth_error (ths st) t' = Some th' -> t_ph th' <> PGone ->
+                    t_desc th' = t_desc th -> t' = t).
+Proof.
+  intros st Hr t th Et Hng. pose proof (ledger_invariant st Hr) as HI.
+  assert (Ho : owns_desc (t_ph th) = true) by (destruct (t_ph th); try reflexivity; congruence).
+  destruct (owned_desc_exclusive st HI t th Et Ho) as (H1 & H2 & H3). repeat split; auto.
+  intros t' th' Et' Hng' E. apply (H3 t' th' Et'); [destruct (t_ph th'); try reflexivity; congruence|exact E].
+Qed.
+
+(** * what each step does to the free lists *)
+Ltac crush_step H :=
+  repeat match type of H with
+         | None = Some _ => discriminate H
+         | context [match ?x with _ => _ end] => destruct x eqn:?
+         end.
+
+Definition fstk_delta (st : state) (w : nat) (e : ev) (st' : state) : Prop :=
+  match e with
+  | ERelStack =>
+      exists k t th, nth_error (wks st) w = Some k /\ w_cb k = Some t /\
+        nth_error (ths st) t = Some th /\ t_ph th = PAway w /\
+        fstk st' = ((w, t_cls th), t_stack th) :: fstk st
+  | EAllocStack c =>
+      fstk st' = fstk st \/
+      exists l1 k x l2, fstk st = l1 ++ (k, x) :: l2 /\ fstk st' = l1 ++ l2 /\ fst k = w
+  | _ => fstk st' = fstk st
+  end.
+
+Lemma key2_eqb_fst k w c : key2_eqb k (w, c) = true -> fst k = w.
+Proof. unfold key2_eqb. intros H. apply andb_true_iff in H. destruct H as (H & _). apply Nat.eqb_eq in H. exact H. Qed.
+
+Lemma step_fstk st w e st' : step st (w, e) = Some st' -> fstk_delta st w e st'.
+Proof.
+  intros H. unfold step in H.
+  destruct (nth_error (wks st) w) as [k|] eqn:Ek; [|discriminate].
+  destruct e; cbn [fstk_delta].
+  - crush_step H; injection H as <-; reflexivity.
+  - destruct (w_new k) as [t|]; [|discriminate].
+    destruct (nth_error (ths st) t) as [th|]; [|discriminate].
+    destruct (phase_eqb (t_ph th) (PNew w)); [|discriminate].
+    unfold take in H. destruct (pop key2_eqb (w, cls) (fstk st)) as [[x r]|] eqn:Ep.
+    + injection H as <-. cbn [fstk]. right.
+      destruct (pop_split _ _ _ _ _ Ep) as (l1 & k0 & l2 & E1 & E2 & Hk).
+      exists l1, k0, x, l2. repeat split; auto. eapply key2_eqb_fst; exact Hk.
+    + injection H as <-. left. reflexivity.
+  - crush_step H; injection H as <-; reflexivity.
+  - crush_step H; injection H as <-; reflexivity.
+  - crush_step H; injection H as <-; reflexivity.
+  - crush_step H; injection H as <-; reflexivity.
+  - crush_step H; injection H as <-; reflexivity.
+  - destruct (w_cb k) as [t|] eqn:Ecb; [|discriminate].
+    destruct (nth_error (ths st) t) as [th|] eqn:Et; [|discriminate].
+    destruct (phase_eqb (t_ph th) (PAway w)) eqn:Ep; [|discriminate]. ph Ep.
+    injection H as <-. exists k, t, th. auto.
+  - crush_step H; injection H as <-; reflexivity.
+  - crush_step H; injection H as <-; reflexivity.
+  - crush_step H; injection H as <-; reflexivity.
+  - crush_step H; injection H as <-; reflexivity.
+Qed.
+
+Definition fdesc_delta (st : state) (w : nat) (e : ev) (st' : state) : Prop :=
+  match e with
+  | ERelDescFin =>
+      exists k t th, nth_error (wks st) w = Some k /\ w_cb k = Some t /\
+        nth_error (ths st) t = Some th /\ t_ph th = PFreed w /\ t_det th = true /\
+        fdesc st' = (w, t_desc th) :: fdesc st
+  | EReap t =>
+      exists th, nth_error (ths st) t = Some th /\ t_ph th = PDone /\
+        fdesc st' = (w, t_desc th) :: fdesc st
+  | EAllocDesc _ =>
+      fdesc st' = fdesc st \/
+      exists l1 k x l2, fdesc st = l1 ++ (k, x) :: l2 /\ fdesc st' = l1 ++ l2 /\ k = w
+  | _ => fdesc st' = fdesc st
+  end.
+
+Lemma step_fdesc st w e st' : step st (w, e) = Some st' -> fdesc_delta st w e st'.
+Proof.
+  intros H. unfold step in H.
+  destruct (nth_error (wks st) w) as [k|] eqn:Ek; [|discriminate].
+  destruct e; cbn [fdesc_delta].
+  - destruct (quiet k && cur_running st w k); [|discriminate].
+    unfold take in H. destruct (pop Nat.eqb w (fdesc st)) as [[x r]|] eqn:Ep.
+    + injection H as <-. cbn [fdesc]. right.
+      destruct (pop_split _ _ _ _ _ Ep) as (l1 & k0 & l2 & E1 & E2 & Hk).
+      exists l1, k0, x, l2. repeat split; auto. apply Nat.eqb_eq. exact Hk.
+    + injection H as <-. left. reflexivity.
+  - crush_step H; injection H as <-; reflexivity.
+  - crush_step H; injection H as <-; reflexivity.
+  - crush_step H; injection H as <-; reflexivity.
+  - crush_step H; injection H as <-; reflexivity.
+  - crush_step H; injection H as <-; reflexivity.
+  - crush_step H; injection H as <-; reflexivity.
+  - crush_step H; injection H as <-; reflexivity.
+  - crush_step H; injection H as <-; reflexivity.
+  - destruct (w_cb k) as [t|] eqn:Ecb; [|discriminate].
+    destruct (nth_error (ths st) t) as [th|] eqn:Et; [|discriminate].
+    destruct (phase_eqb (t_ph th) (PFreed w) && t_det th) eqn:Eq; [|discriminate].
+    apply andb_true_iff in Eq. destruct Eq as (Ep & Ed). ph Ep.
+    injection H as <-. exists k, t, th. auto 10.
+  - crush_step H; injection H as <-; reflexivity.
+  - destruct (nth_error (ths st) t) as [th|] eqn:Et; [|discriminate].
+    destruct (quiet k && cur_running st w k && phase_eqb (t_ph th) PDone) eqn:Eq; [|discriminate].
+    apply andb_true_iff in Eq. destruct Eq as (_ & Ep). ph Ep.
+    injection H as <-. exists th. auto.
+Qed.
+
+(** C12_release_once, step form: the only step that puts a stack into a free list is the
+    callback's release; when it happens the thread has been switched away from, the stack is
+    in no free list, no worker executes on it, no thread's saved context lies in it, and it
+    goes to the list of the worker executing the callback, once. *)
+Theorem release_stack_step : forall st w e st', reachable init step st -> step st (w, e) = Some st' ->
+  (forall x, In x (fstk st') -> In x (fstk st) \/ e = ERelStack) /\
+  (e = ERelStack ->
+     exists t th, nth_error (ths st) t = Some th /\ t_ph th = PAway w /\
+       fstk st' = ((w, t_cls th), t_stack th) :: fstk st /\
+       ~ In (t_stack th) (map snd (fstk st)) /\
+       (forall w', on_stack st w' <> Some (t_stack th)) /\
+       (forall t' th', nth_error (ths st) t' = Some th' -> owns_stack (t_ph th') = true ->
+                       t_stack th' = t_stack th -> t' = t) /\
+       NoDup (map snd (fstk st'))).
+Proof.
+  intros st w e st' Hr Hst. pose proof (step_fstk _ _ _ _ Hst) as Hd. split.
+  - intros x Hx. destruct e; cbn [fstk_delta] in Hd; try (rewrite Hd in Hx; left; exact Hx).
+    + destruct Hd as [Hd|(l1 & k & y & l2 & E1 & E2 & _)]; [rewrite Hd in Hx; left; exact Hx|].
+      left. rewrite E1. rewrite E2 in Hx. apply in_app_or in Hx. apply in_or_app.
+      destruct Hx as [Hx|Hx]; [left; exact Hx|right; right; exact Hx].
+    + right. reflexivity.
+  - intros ->. cbn [fstk_delta] in Hd. destruct Hd as (k & t & th & Ek & Ecb & Et & Ep & Ef).
+    destruct (stack_in_use_exclusive st Hr) as (Hon & Hown).
+    assert (Ho : owns_stack (t_ph th) = true) by (rewrite Ep; reflexivity).
+    destruct (Hown t th Et Ho) as (_ & Hnin & Huniq).
+    exists t, th. repeat split; auto.
+    + intros w' Hw'. destruct (Hon w' _ Hw') as (t' & th' & Et' & Es & Hph & _).
+      assert (Ho' : owns_stack (t_ph th') = true) by (destruct Hph as [-> | ->]; reflexivity).
+      pose proof (Huniq t' th' Et' Ho' Es) as ->. rewrite Et in Et'. injection Et' as <-.
+      rewrite Ep in Hph. destruct Hph; discriminate.
+    + assert (Hr' : reachable init step st') by (eapply reach_step; eassumption).
+      apply (free_lists_nodup st' Hr').
+Qed.
+
+(** the record enters a free list only through a reap of a thread whose FREE_READY2 has been
+    published, or through the callback of a detached thread after its stack was released *)
+Theorem release_desc_step : forall st w e st', reachable init step st -> step st (w, e) = Some st' ->
+  (forall x, In x (fdesc st') -> In x (fdesc st) \/ e = ERelDescFin \/ exists t, e = EReap t) /\
+  (e = ERelDescFin ->
+     exists t th, nth_error (ths st) t = Some th /\ t_ph th = PFreed w /\ t_det th = true /\
+       fdesc st' = (w, t_desc th) :: fdesc st /\ ~ In (t_desc th) (map snd (fdesc st))) /\
+  (forall t, e = EReap t ->
+     exists th, nth_error (ths st) t = Some th /\ t_ph th = PDone /\
+       fdesc st' = (w, t_desc th) :: fdesc st /\ ~ In (t_desc th) (map snd (fdesc st))).
+Proof.
+  intros st w e st' Hr Hst. pose proof (step_fdesc _ _ _ _ Hst) as Hd.
+  pose proof (ledger_invariant st Hr) as HI. split; [|split].
+  - intros x Hx. destruct e; cbn [fdesc_delta] in Hd; try (rewrite Hd in Hx; left; exact Hx).
+    + destruct Hd as [Hd|(l1 & k & y & l2 & E1 & E2 & _)]; [rewrite Hd in Hx; left; exact Hx|].
+      left. rewrite E1. rewrite E2 in Hx. apply in_app_or in Hx. apply in_or_app.
+      destruct Hx as [Hx|Hx]; [left; exact Hx|right; right; exact Hx].
+    + right. left. reflexivity.
+    + right. right. eexists. reflexivity.
+  - intros ->. cbn [fdesc_delta] in Hd. destruct Hd as (k & t & th & Ek & Ecb & Et & Ep & Edet & Ef).
+    exists t, th. repeat split; auto.
+    apply (owned_desc_exclusive st HI t th Et). rewrite Ep. reflexivity.
+  - intros t ->. cbn [fdesc_delta] in Hd. destruct Hd as (th & Et & Ep & Ef).
+    exists th. repeat split; auto.
+    apply (owned_desc_exclusive st HI t th Et). rewrite Ep. reflexivity.
+Qed.
+
+(** C12_env_consistent: a step of worker w leaves the free lists of every other worker
+    untouched - entries are only ever added to or removed from the lists of the worker that
+    executes the step *)
+Definition others_stk (w : nat) (l : list ((nat * nat) * nat)) := filter (fun e => negb (Nat.eqb (fst (fst e)) w)) l.
+Definition others_desc (w : nat) (l : list (nat * nat)) := filter (fun e => negb (Nat.eqb (fst e) w)) l.
+
+Theorem release_to_own_list : forall st w e st', step st (w, e) = Some st' ->
+  others_stk w (fstk st') = others_stk w (fstk st) /\
+  others_desc w (fdesc st') = others_desc w (fdesc st).
+Proof.
+  intros st w e st' Hst. split.
+  - pose proof (step_fstk _ _ _ _ Hst) as Hd. unfold others_stk.
+    destruct e; cbn [fstk_delta] in Hd; try (rewrite Hd; reflexivity).
+    + destruct Hd as [Hd|(l1 & k & y & l2 & E1 & E2 & Hk)]; [rewrite Hd; reflexivity|].
+      rewrite E1, E2, !filter_app. cbn [filter fst]. rewrite Hk, Nat.eqb_refl. reflexivity.
+    + destruct Hd as (k & t & th & _ & _ & _ & _ & Ef). rewrite Ef. cbn [filter fst].
+      rewrite Nat.eqb_refl. reflexivity.
+  - pose proof (step_fdesc _ _ _ _ Hst) as Hd. unfold others_desc.
+    destruct e; cbn [fdesc_delta] in Hd; try (rewrite Hd; reflexivity).
+    + destruct Hd as [Hd|(l1 & k & y & l2 & E1 & E2 & Hk)]; [rewrite Hd; reflexivity|].
+      rewrite E1, E2, !filter_app. cbn [filter fst]. rewrite Hk, Nat.eqb_refl. reflexivity.
+    + destruct Hd as (k & t & th & _ & _ & _ & _ & _ & Ef). rewrite Ef. cbn [filter fst].
+      rewrite Nat.eqb_refl. reflexivity.
+    + destruct Hd as (th & _ & _ & Ef). rewrite Ef. cbn [filter fst].
+      rewrite Nat.eqb_refl. reflexivity.
+Qed.
